@@ -15,7 +15,7 @@ func init() {
 	execs["serve3seq"] = execServe3Seq
 }
 
-var c03Exp = []string{"none", "far-past", "now-1", "now", "now+1", "far", "zero", "neg"}
+var c03Exp = []string{"none", "far-past", "now-1", "now", "now+1", "far", "zero", "neg", "huge", "y9999", "max"}
 var c03Nbf = []string{"unset", "far-past", "now-1", "now", "now+1", "far"}
 
 func relOf(s string) *int {
@@ -33,6 +33,8 @@ func relOf(s string) *int {
 		v = 1
 	case "far":
 		v = farFuture
+	case "huge": // centuries ahead
+		v = 10_000_000_000
 	}
 	return &v
 }
@@ -62,8 +64,8 @@ func genC03(cfg Config, emit Emit) error {
 				pos := cfg.Rng.Intn(len(w.Tokens))
 				t := &w.Tokens[pos]
 				t.Exp, t.ExpRel = nil, relOf(e)
-				if e == "zero" || e == "neg" { // absolute: the epoch itself, and before it
-					abs := map[string]int{"zero": 0, "neg": -5}[e]
+				if e == "zero" || e == "neg" || e == "y9999" || e == "max" { // absolute: the epoch itself, before it, the last second of year 9999, the largest value
+					abs := map[string]int{"zero": 0, "neg": -5, "y9999": 253402300799, "max": 1<<63 - 1}[e]
 					t.Exp, t.ExpRel = &abs, nil
 				}
 				t.NbfRel = relOf(n)
@@ -128,7 +130,11 @@ func execAccess3(args []string) (res Result) {
 // genC03Seq: the same tokens are validated twice by the same process, before and after a boundary of
 // one token's window passes: valid then expired (what a cache of accepted tokens gets wrong), too
 // early then valid (what a cache of refusals gets wrong). The second validation is the observed one.
-func genC03Seq(cfg Config, emit Emit) { genSeq(cfg, emit, "C03", 24, 240, 50) }
+func genC03Seq(cfg Config, emit Emit) {
+	genSeq(cfg, emit, "C03", 24, 240, 50)
+	// sessions that are needed and proper, the boundary on the attestation (or the grant it rests on)
+	genSeq(cfg, emit, "C03", 18, 180, 100)
+}
 
 // genSeq: mode = property on whose behalf the cases run; attPct = how often (in %) the token whose
 // window boundary passes is an attestation, when the world has one. A third of the cases go through a
@@ -223,14 +229,24 @@ func execAccess3Seq(args []string) (res Result) {
 				t.Nbf, t.NbfRel = T+*t.NbfRel, nil
 			}
 		}
-		first := execAccess([]string{args[0], mustJSON(&w)})
+		// one validation context serves both validations (a service that keeps its context)
+		cw, err := Concretise(&w)
+		if err != nil {
+			return Result{Impl: "concretise-error:" + err.Error()}
+		}
+		cw.keepCtx = true
+		log := &runLog{}
+		first := accessOn(cw, &w, args[0], log)
 		// let the boundary pass
 		for int(time.Now().Unix()) < T+2 {
 			time.Sleep(50 * time.Millisecond)
 		}
 		T2 := int(stableNow().Unix())
 		w.Now = T2
-		r := execAccess([]string{args[0], mustJSON(&w)})
+		log.mu.Lock()
+		log.Checker, log.Derives, log.Resolved, log.unavailable = nil, nil, nil, 0
+		log.mu.Unlock()
+		r := accessOn(cw, &w, args[0], log)
 		if int(time.Now().Unix()) != T2 {
 			continue
 		}
